@@ -98,10 +98,16 @@ pub fn run(ctx: &Ctx, rep: &mut Report) {
         let via_subset = wi % 2 == 1 && wi % 8 != 3;
         // (with path-rewrite plugins the request keeps the fields those plugins read: surface, POS, normalised form)
         let sub_bits = ((rng.next() as u32) & 0x3ff & !(0xc2)) | if world.plugins.join_numeric.is_some() || world.plugins.join_katakana.is_some() { 0x00d } else { 0 };
+        // ... in every second of those worlds after a first analysis in mode C (the result list has then been used under
+        // the narrow request before the mode is changed)
+        let warm = wi % 4 == 1;
         let make = |m: Mode| {
             if via_subset {
                 let mut t = Tok::new(&world.dict, Mode::C);
                 t.tok.set_subset(crate::fields::subset_of(sub_bits));
+                if warm {
+                    let _ = guard(|| t.run("あい東京都"));
+                }
                 t.tok.set_mode(m);
                 t
             } else {
